@@ -5,12 +5,14 @@
 import GabiModel.Ops.Base
 import GabiModel.Ops.Basic
 import GabiModel.Ops.KeysOps
+import GabiModel.Ops.Crypto
 namespace Gabi.Ops
 open Lean Gabi Gabi.Wire
 
 def handlers : List Handler := [
   Basic.handle,
-  KeysOps.handle
+  KeysOps.handle,
+  Crypto.handle
 ]
 
 def run (st : State) (op : String) (j : Json) : R (State × String) :=
